@@ -72,13 +72,15 @@ CaseClauses(c) ==
         /\ \A m \in 1..ND : Alive(Before(c, m), cut)
         /\ solverRaised => Alive(ev[n].ret, cut)
         /\ complete => ~Alive(ev[n].ret, cut)),
-     \* where a solver call was observed, the battery Source carried the battery's present state ...
-     Cl("C18.SetSource", valid /\ shapeOK /\ probed,
+     \* where a solver call was observed, the battery Source carried the battery's present state and the call was for
+     \* the phase of the step - how the code does it today; private detail, recorded as notes (C18.Current and C18.Dt
+     \* bind what the callbacks see)
+     Cl("note.C18.SetSource", valid /\ shapeOK /\ probed,
         /\ \A m \in 1..ND : \A q \in DOMAIN ev[m + 1].solves :
               LET b == Before(c, m) sv == ev[m + 1].solves[q] IN sv.vo = b[2] /\ sv.rs = b[3]
         /\ \A q \in DOMAIN c.tail : c.tail[q].vo = ev[n].ret[2] /\ c.tail[q].rs = ev[n].ret[3]),
      \* ... and the call was for the phase of the step
-     Cl("C18.PhaseOrder", valid /\ shapeOK /\ probed,
+     Cl("note.C18.PhaseOrder", valid /\ shapeOK /\ probed,
         /\ \A m \in 1..ND : \A q \in DOMAIN ev[m + 1].solves : ev[m + 1].solves[q].phase = PhaseAt(c, m)
         /\ \A q \in DOMAIN c.tail : c.tail[q].phase = PhaseAt(c, ND + 1)),
      Cl("C18.Dt", valid /\ shapeOK /\ probed,
@@ -104,7 +106,7 @@ CaseClauses(c) ==
   >>
 
 AllClauseNames == {"C18.NotASource", "C17.BattRestored", "C18.Machine.Shape", "C18.Machine.Outcome", "C18.Machine.Guard",
-                   "C18.SetSource", "C18.PhaseOrder", "C18.Dt", "C18.Current", "C18.LogInitial", "C18.LogPrefix",
+                   "note.C18.SetSource", "note.C18.PhaseOrder", "C18.Dt", "C18.Current", "C18.LogInitial", "C18.LogPrefix",
                    "C18.TimeIncreasing", "events"}
 RECURSIVE SetToSeq(_)
 SetToSeq(X) == IF X = {} THEN <<>> ELSE LET x == CHOOSE x \in X : TRUE IN <<x>> \o SetToSeq(X \ {x})
